@@ -363,6 +363,25 @@ def check(repo: Repo, run: Run) -> None:
     lv = ev.func("NameContainer.load_values")
     s = ast.unparse(lv)
     check_clone(repo, run)
+    # N4b: loading a value keeps the Referent that is already there (its declaration *and* the namespace nested under
+    # it): storing a new Referent into the context discards `a.b` when `a` is bound after it
+    lv = ev.func("NameContainer.load_values")
+    repl = [n for n in ast.walk(lv) if isinstance(n, ast.Assign) and any(isinstance(t, ast.Subscript) for t in n.targets)
+            and isinstance(strip_cast(n.value), ast.Call) and (dotted(strip_cast(n.value).func) or "").split(".")[-1] == "Referent"]
+    guarded_repl = []
+    for n in repl:
+        q = getattr(n, "_parent", None)
+        while q is not None and q is not lv:
+            if isinstance(q, ast.If) and "not in" in ast.unparse(q.test) and n in list(ast.walk(ast.Module(body=q.body, type_ignores=[]))):
+                guarded_repl.append(n)
+            q = getattr(q, "_parent", None)
+    bad_repl = [n for n in repl if n not in guarded_repl]
+    if bad_repl:
+        run.ob("C12.N4", "NameContainer.load_values|keeps referent", False,
+               f"load_values stores a new Referent (`{ast.unparse(bad_repl[0])[:60]}`) over the entry that may already exist: the namespace nested under the old one is lost, so with bindings "
+               "{'a.b': 1, 'a': {...}} the longer name `a.b` no longer wins", ev.loc(bad_repl[0]))
+    else:
+        run.ob("C12.N4", "NameContainer.load_values|keeps referent", True, "load_values never replaces an existing Referent (new ones only through setdefault / a `not in` guard)", ev.loc(lv))
     run.shape("C12.N4", "NameContainer.load_values", "context[final].value = refers_to" in s and "context.setdefault(final, Referent())" in s,
            "load_values sets the value on the existing Referent (declaration kept, binding wins through Referent.value)", ev.loc(lv))
 
